@@ -47,7 +47,7 @@ Definition wp_valid (h : hier) (C : nat) (s : wpspec) : bool :=
 
 (* input  L [hierarchy; tables; I class; options]
    output L [I 0; L objects] | L [I 1] InvalidRequestError | L [I 2] AssertionError | L [I 3] bad with_polymorphic *)
-Definition run_case (t : tree) : tree :=
+Definition run_case1 (t : tree) : tree :=
   match t with
   | L [th; tb; tc; tp] =>
     match as_list_of as_cdef th, as_list_of as_table tb, as_nat tc, as_opt tp with
@@ -64,4 +64,12 @@ Definition run_case (t : tree) : tree :=
     | _, _, _, _ => bad_input
     end
   | _ => bad_input
+  end.
+
+(* a fifth component describes how the hierarchy was built in the harness (classes mapped after a first query,
+   compiled cache cleared): on the model side the mapping is simply the final hierarchy *)
+Definition run_case (t : tree) : tree :=
+  match t with
+  | L [th; tb; tc; tp; _] => run_case1 (L [th; tb; tc; tp])
+  | _ => run_case1 t
   end.
